@@ -17,10 +17,16 @@ PLAN = dict(
                     "reference semantics); (2) Rust compile_prog output = Gallina model output (canonical printing); (3) ALWAYS "
                     "the executable property on the RUST output: run_fun(checked program) vs run_core(Rust Core program) on "
                     "every tuple whose source run ends normally within the fuel -> VIOL class=capture-under-binder (known finding) | "
+                    "call-to-main (known finding: main has no return continuation, calls of main pass one) | "
                     "mistyped-goto-unbound (repaired by 126604b; a recurrence is a violation) | semantic-mismatch; mismatches of programs outside the precondition "
                     "(effects in argument positions) are SKIPped.  Theorems: fresh names for fresh_name and for the whole "
-                    "translation (all term forms), structural lemmas, the capture witness refuting the unguarded statement; "
-                    "semantic preservation itself rests on the correspondence + this executable check (see level_note)",
+                    "translation (all term forms), structural lemmas, the capture and call-to-main witnesses refuting the unguarded and the "
+                    "Barendregt-guarded statements, and SEMANTIC PRESERVATION for all term forms incl. codata "
+                    "(C02_fun2core_correct_fragment2: step-indexed forward simulation CEK vs Core machine; any number of definitions, calls, "
+                    "recursion, shared continuations, data/case, labels/goto, new/destructors/by-name bindings; guard: scope check + kind discipline + "
+                    "capture guard, implied by Barendregt; excluded: calls of main, destructor calls whose scrutinee and arguments both need evaluation); inputs inside "
+                    "the theorem's hypotheses carry the tag proved-fragment2 (others out-frag/out-kind/out-scope/out-nocap); outside them preservation rests on the correspondence + "
+                    "this executable check (see level_note)",
         assumptions=["the reference semantics Sem/FunSem.v and Sem/CoreSem.v are the intended meaning of Fun and Core "
                      "(validated against the repository's 11 expected outputs and native x86-64 runs of the corpus, not proved)",
                      "effect_sequenced is a conservative syntactic approximation of 'arguments and codata bindings are pure'; "
